@@ -592,6 +592,19 @@ for _p in ("C01", "C04", "C07", "C11"):
     CLAIMED[_p]["text"] += _R9_WBRIDGE3B
 
 
+CLAIMED["C06"]["text"] += (" Round 9 (gapg): vlib/seekmatrix.py enumerates (no seed involved) every block codec x container x channel count x (stand in block L by a read / at its end with the next block "
+                            "undecoded) x target block {L+1, L+2, L+3, 2L+1, 2L+2, L, L-1, 0, last}: seek (SEEK_SET / SEEK_CUR), probe, read across the target's end, judged by Sf.Abs against the sequential "
+                            "reads of a separate handle; lean/SfModel/ImaSeek.lean is ima_adpcm.c's read side as written (block counter in the C unit), lean/SfProps/C06ImaSeek.lean proves seek_then_read for every history, target and channel count.")
+CLAIMED["C20"]["text"] += (" Round 9 (gapg): the IMA (WAV / W64 / AIFF layouts) and MS ADPCM decoders at every position a seek can reach: the block-seek matrix of vlib/seekmatrix.py on library-written files, judged against "
+                            "the REFERENCE decoders (`sfmodel adpcm ... ref`) applied to the blocks the campaign cuts out of the file itself.")
+CLAIMED["C02"]["text"] += (" Round 9 (gapg): vlib/labelcamp.py -- the codec LABEL every container stores (lean/SfModel/Label.lean `spec`, written from the format specifications; `sfmodel label table`) compared with what the library "
+                            "writes, a foreign file per (container, G.711 law) whose label is the specification's read through all four caller types against the ITU expansion, and the width rule `Sf.Label.keepOk` "
+                            "(an int written to an exact w-bit codec reads back as its top w bits) for every exact integer codec in every container; theorems lean/SfProps/C02Label.lean.")
+CLAIMED["C01"]["text"] += (" Round 9 (gapg): vlib/precmd.py -- the round trip after each of 16 format-affecting commands issued behind the open (SFC_WAVEX_SET_AMBISONIC, SFC_SET_ADD_PEAK_CHUNK, SFC_RF64_AUTO_DOWNGRADE, header / "
+                            "conversion switches, codec parameters) x every lossless (container, encoding), decided by Sf.AbsWrite.judge (clauses roundtrip / reopen / crash); lean/SfModel/WavexGuid.lean + SfProps/C01WavexGuid.lean: "
+                            "every encoding x both values of the Ambisonic flag re-opens as itself.")
+
+
 def main():
     checks = []
     for p in PROPS:
